@@ -279,6 +279,9 @@ func (a *fnA) lin(v ssa.Value) Lin {
 		if b, ok := x.Call.Value.(*ssa.Builtin); ok && b.Name() == "len" && len(x.Call.Args) == 1 {
 			return a.lenOf(x.Call.Args[0])
 		}
+		if b, ok := x.Call.Value.(*ssa.Builtin); ok && b.Name() == "cap" && len(x.Call.Args) == 1 {
+			return a.capOf(x.Call.Args[0])
+		}
 	case *ssa.UnOp:
 		if x.Op == token.MUL {
 			if f, ok := a.fwd[x]; ok && f != v {
@@ -340,6 +343,27 @@ func (a *fnA) lenOf(s ssa.Value) Lin {
 		}
 	}
 	return linTerm(a.lenTerm(s))
+}
+
+// capOf expresses cap(s) for a slice value (0 <= len(s) <= cap(s) is added by
+// the users of the term).
+func (a *fnA) capOf(s ssa.Value) Lin {
+	switch x := s.(type) {
+	case *ssa.MakeSlice:
+		if x.Cap != nil {
+			return a.lin(x.Cap)
+		}
+		return a.lin(x.Len)
+	case *ssa.ChangeType:
+		return a.capOf(x.X)
+	case *ssa.UnOp:
+		if x.Op == token.MUL {
+			if f, ok := a.fwd[x]; ok {
+				return a.capOf(f)
+			}
+		}
+	}
+	return linTerm(a.term("cap:"+a.valKey(s), s, true, "cap("+a.describe(s)+")"))
 }
 
 // lenOfOperand: length of the operand of a Slice/Index instruction (slice,
